@@ -115,7 +115,7 @@ def main(argv=None):
     if args.replay:
         return replay_file(scn, prop, args.replay)
 
-    n_runs = args.runs or scn.RUNS[tier]
+    n_runs = args.runs or max(1, int(scn.RUNS[tier] * float(os.environ.get("VERIF_RUNS_SCALE", "1"))))
     if args.index is not None:
         r = _worker((prop, tier, base_seed, args.index))
         print(json.dumps(core._jsonable({k: v for k, v in r.items() if k not in ("keys", "tape")}), indent=1)[:6000])
